@@ -186,7 +186,7 @@ func main() {
 			hashers []string
 			ballast []int
 		}
-		sel := cfgSel{[]string{"identity", "pairs-collide", "level2", "high-bits"}, []int{0, 4, 14, 27}}
+		sel := cfgSel{[]string{"identity", "pairs-collide", "level2", "high-bits", "pairs-shared-path", "constant", "beside-collision"}, []int{0, 4, 14, 27}}
 		if r.Thorough() {
 			sel = cfgSel{nil, []int{0, 3, 4, 7, 8, 12, 13, 14, 15, 16, 27, 28}}
 			for _, h := range hamt.Hashers {
